@@ -201,3 +201,53 @@ def run(ctx):
         m = arg_meta[i]
         ctx.violation(f"{m['scorer']}: malformed cuts argument of kind {m['arg_kind']} -> implementation {m['impl']}, "
                       f"model disagrees", m, {"scorer": m["scorer"], "what": "malformed", "arg": m["arg_kind"]})
+    narrow_dtype_stream(ctx)
+
+
+def narrow_dtype_stream(ctx):
+    """Cuts held in a NARROW integer dtype (int8 ... uint32) are integer arrays like any other: a valid cut must be scored exactly as the same
+    cut held in int64 (position arithmetic inside a kernel must not overflow the cuts' own dtype), an invalid one must still be rejected."""
+    rng = np.random.default_rng(ctx.seed + 1313)
+    plans = [(np.int8, 120), (np.uint8, 250), (np.int16, 420), (np.uint16, 420), (np.int32, 420)]
+    if not ctx.quick():
+        plans += [(np.int16, 30000), (np.int32, 70000), (np.uint32, 70000)]
+    for dt, n in plans:
+        p = 1 if n > 1000 else 2
+        X = np.round(rng.normal(size=(n, p)), 3)
+        X[n // 3:] += 2.0
+        for name, sc, kind, _ref in scorers(p):
+            if "Cov" in name and n > 1000:
+                continue
+            k = kind[1] if kind[0] == "Plain" else 4
+            ms = kind[2] if kind[0] == "Plain" else max(kind[1], 1)
+            sc.fit(X)
+            rows = []
+            hi = min(n, int(np.iinfo(dt).max))
+            for _ in range(6):
+                while True:
+                    r = sorted(int(v) for v in rng.choice(np.arange(0, hi + 1), size=k, replace=False))
+                    if all(b - a >= ms + 1 for a, b in zip(r, r[1:])):
+                        break
+                rows.append(r)
+            rows.append([0] + [hi - (k - 1 - j) * (ms + 2) for j in range(1, k)])     # the widest cut the dtype can hold
+            for r in rows:
+                st64, v64 = classify(sc, np.array([r], dtype=np.int64))
+                stn, vn = classify(sc, np.array([r], dtype=dt))
+                inp = {"scorer": name, "n": n, "p": p, "cut": r, "dtype": np.dtype(dt).name, "data_seed": ctx.seed + 1313}
+                ctx.case({"s": name, "n": n, "narrow": np.dtype(dt).name, "cut": r}, nontrivial=True)
+                ctx.count("narrow_dtype", np.dtype(dt).name)
+                if st64 != "ok":
+                    continue      # e.g. a numerically singular covariance: not this stream's subject
+                if stn != "ok":
+                    ctx.violation(f"{name}: the valid cut {r} (n={n}) held in dtype {np.dtype(dt).name} raised {stn} ({vn}) although the same cut in int64 is scored",
+                                  inp, {"scorer": name, "what": "narrow-dtype-rejected", "dtype": np.dtype(dt).name})
+                elif not np.allclose(np.asarray(vn, dtype=float), np.asarray(v64, dtype=float), rtol=1e-12, atol=0.0):
+                    ctx.violation(f"{name}: the valid cut {r} (n={n}) held in dtype {np.dtype(dt).name} is scored {np.asarray(vn).tolist()} but the definition "
+                                  f"(and the same cut in int64) gives {np.asarray(v64).tolist()}: position arithmetic overflowed the cuts' dtype",
+                                  inp, {"scorer": name, "what": "narrow-dtype-value", "dtype": np.dtype(dt).name})
+            # a decreasing row in the narrow dtype must still be rejected
+            bad = list(reversed(rows[0]))
+            stb, vb = classify(sc, np.array([bad], dtype=dt))
+            if stb != "ValueError":
+                ctx.violation(f"{name}: the decreasing cut {bad} in dtype {np.dtype(dt).name} was not rejected with ValueError ({stb})",
+                              {"scorer": name, "n": n, "cut": bad, "dtype": np.dtype(dt).name}, {"scorer": name, "what": "narrow-dtype-accepts-invalid", "dtype": np.dtype(dt).name})
